@@ -12,7 +12,7 @@ RULE = ("every window kind (and unknown / mixed-case kinds), line widths over si
         "window formulas evaluated in Float against dnplab.math.window (rel. 1e-11), (c) on the real code: window identical "
         "for every trace, first point 1 and non-increasing for the decaying kinds, exponential closed form, unknown kinds "
         "rejected; non-trivial = >=2 dims or length > 8")
-LWS = ["1/1000", "1/100", "1/10", "1", "10", "100", "1000", "1/1000000", "1/100000000"]   # incl. very weak broadening (pi*lw*T ~ 1e-6 … 1e-8)
+LWS = ["0", "1/1000", "1/100", "1/10", "1", "10", "100", "1000", "1/1000000", "1/100000000"]   # incl. very weak broadening (pi*lw*T ~ 1e-6 … 1e-8)
 
 
 X0S = [Fraction(0), Fraction(0), Fraction(1, 20), Fraction(3), Fraction(-1, 4)]
@@ -31,9 +31,9 @@ def streams(tier, seed):
                                 cplx=rng.random() < 0.4)
                 kwargs = {}
                 if kind in ("exponential", "gaussian", "traf"):
-                    kwargs = {"lw": rng.choice(LWS)}
+                    kwargs = {"lw": rng.choice(LWS if kind != "traf" else LWS[1:])}      # traf divides by the line width
                 if kind == "lorentz_gauss":
-                    kwargs = {"lw": rng.choice(LWS[:4]), "gauss_lw": rng.choice(LWS[:4])}
+                    kwargs = {"lw": rng.choice(LWS[1:5]), "gauss_lw": rng.choice(LWS[1:5])}
                 o = op_apodize(a, dim, kind, kwargs)
                 if o is not None:
                     out.append([a, o])
@@ -74,11 +74,20 @@ def formula_check(tier, seed):
                 for kind, par in (("exponential", {"lw": lw}), ("gaussian", {"lw": lw}), ("traf", {"lw": lw}),
                                   ("hann", {}), ("hamming", {}), ("sin2", {}),
                                   ("lorentz_gauss", {"lw": lw, "gauss_lw": "1/10", "gaussian_max": "0"})):
+                    if kind in ("traf", "lorentz_gauss") and lw == "0":
+                        continue      # no broadening is a statement about the decaying kinds (traf divides by the line width)
                     if kind in ("hann", "hamming", "sin2") and lw != LWS[0]:
                         continue
                     ops.append(dict({"op": "window", "kind": kind, "x": [str(v) for v in x]}, **par))
                     with np.errstate(all="ignore"):
-                        wv = getattr(W, kind)(xf, **{k: float(Fraction(v)) for k, v in par.items()})
+                        try:
+                            wv = getattr(W, kind)(xf, **{k: float(Fraction(v)) for k, v in par.items()})
+                        except Exception as e:  # noqa: BLE001  (a window of the decaying kinds is defined for every line width >= 0)
+                            key = "C15:window-raises:%s" % kind
+                            if key not in {f["key"] for f in FAILS}:
+                                FAILS.append({"key": key, "clause": key, "ops": [{"kind": kind, "par": par, "n": n, "error": type(e).__name__}]})
+                            ops.pop()
+                            continue
                     wants.append(wv)
                     # the property's own clauses on the window the implementation evaluates (all parameters >= 0, ascending axis):
                     # a decaying window lies in [0, 1], so it is finite for ANY line width and axis start; first point 1; no increase
